@@ -1,5 +1,6 @@
 import Tahoe.Spans.Lemmas
 import Tahoe.Spans.DataLemmas
+import Tahoe.Spans.RegLemmas
 /-! C37 — byte-range bookkeeping is exact (property theorems; helper lemmas live in
 `Tahoe/Spans/Lemmas.lean` and `Tahoe/Spans/DataLemmas.lean`).
 
@@ -213,5 +214,55 @@ theorem dspans_history (ops : List DOp) :
 
 example : drun [] [DOp.add 0 [1, 2, 3, 4], DOp.add 6 [8, 8], DOp.add 3 [5, 5, 5], DOp.pop 1 2, DOp.remove 7 1] =
     [(0, [1]), (3, [5, 5, 5, 8])] := by decide
+
+/-! ## Part 3: named values.  Value-returning operations (`&`, `-`, `+`, the copy constructors,
+`get_spans()`) produce a value of their own: in the model (`RegModel.lean`: registers `r0, r1, …` of `Spans`,
+`d0, d1, …` of `DataSpans`) an operation changes the register it writes and no other — this is the spec the
+correspondence check holds the real objects to after every step (a result that is the same object as an
+operand would change together with it). -/
+
+/-- an operation changes no `Spans` register other than the one it writes -/
+theorem rstep_frame_r (st : RState) (op : ROp) (j : Nat) (h : op.rTarget ≠ some j) :
+    (rstep st op).r j = st.r j :=
+  rstep_r_frame st op j h
+
+/-- an operation changes no `DataSpans` register other than the one it writes -/
+theorem rstep_frame_d (st : RState) (op : ROp) (j : Nat) (h : op.dTarget ≠ some j) :
+    (rstep st op).d j = st.d j :=
+  rstep_d_frame st op j h
+
+/-- in particular: after `r2 = r0 - r1` (or `&`, `+`, copy), an in-place `add`/`remove` on the result leaves both
+operands as they were, whatever the operands are (empty, equal, superset, the same register twice) -/
+theorem result_then_mutate_keeps_operands (st : RState) (i j k a l : Nat) (hi : i ≠ k) (hj : j ≠ k) :
+    (rrun st [.sub k i j, .add k a l]).r i = st.r i ∧ (rrun st [.sub k i j, .add k a l]).r j = st.r j ∧
+    (rrun st [.and k i j, .rm k a l]).r i = st.r i ∧ (rrun st [.and k i j, .rm k a l]).r j = st.r j := by
+  simp only [rrun, List.foldl_cons, List.foldl_nil, rstep]
+  simp only [upd, if_neg hi, if_neg hj]
+  exact ⟨trivial, trivial, trivial, trivial⟩
+
+example : let st := rrun RState.empty [.set 0 [(0, 4), (6, 4)], .sub 2 0 1, .add 2 20 2, .single 1 0 50, .and 3 0 1, .rm 3 0 2]
+    st.r 0 = [(0, 4), (6, 4)] ∧ st.r 2 = [(0, 4), (6, 4), (20, 2)] ∧ st.r 3 = [(2, 2), (6, 4)] := by decide
+
+/-- `Spans(other)` returns an equal value -/
+theorem spCopy_eq_self (s : List Span) (h : WF s) : spCopy s = s :=
+  spCopy_eq ((wf_iff_chain s).1 h)
+
+/-- the operators as written (with the copies they make) are the folds / the intersection of Part 1, so
+`mem_addAll`, `mem_removeAll`, `mem_inter` describe them -/
+theorem operators_eq (s o : List Span) (h : WF s) :
+    spOr s o = addAll s o ∧ spSub s o = removeAll s o ∧ spAnd s o = inter s o :=
+  have hc := (wf_iff_chain s).1 h
+  ⟨spOr_eq o hc, spSub_eq o hc, spAnd_eq o hc⟩
+
+example : WF [(2, 6), (10, 3)] ∧ spAnd [(2, 6), (10, 3)] [(0, 4), (7, 4)] = [(2, 2), (7, 1), (10, 1)] ∧
+    spSub [(2, 6), (10, 3)] [] = [(2, 6), (10, 3)] ∧ spCopy [(2, 6), (10, 3)] = [(2, 6), (10, 3)] :=
+  ⟨by simp [WF], by decide, by decide, by decide⟩
+
+/-- `DataSpans(other)` returns an equal value: the invariant holds and every offset maps to the same byte -/
+theorem dCopy_byteAt (s : List Chunk) (x : Nat) (h : DInv s) : DInv (dCopy s) ∧ byteAt (dCopy s) x = byteAt s x :=
+  ⟨(dCopy_spec h).1, (dCopy_spec h).2 x⟩
+
+example : DInv [(0, [1, 2, 3]), (5, [9])] ∧ dCopy [(0, [1, 2, 3]), (5, [9])] = [(0, [1, 2, 3]), (5, [9])] :=
+  ⟨by simp [DInv, DChain], by decide⟩
 
 end Tahoe.C37
